@@ -283,7 +283,9 @@ pub fn filter_eq_f64(values: &[f64], threshold: f64, result: &mut [u64]) {
 
     let start = chunks * 4;
     for i in start..values.len() {
-        if (values[i] - threshold).abs() < f64::EPSILON {
+        // exact IEEE equality, like the SIMD lanes above and `Condition::evaluate`
+        #[allow(clippy::float_cmp)]
+        if values[i] == threshold {
             result[i / 64] |= 1u64 << (i % 64);
         }
     }
